@@ -189,6 +189,11 @@ func backpressureSetup(s *rt.Sim, tier string) func() {
 		case 0:
 			n := 5 + pick("op", 40)
 			sentBytes := 0
+			// knob (own stream): how the sender frames its stream. One message per segment (split
+			// when larger), or the byte stream cut into full-size segments, so that several
+			// messages share a segment and messages straddle segment boundaries
+			packed := rt.Choose("op.x", 3) == 2
+			var stream []byte
 			for i := 0; i < n; i++ {
 				sz := 12 + pick("op", sizeMax-11)
 				if chance("op", 1, 6) {
@@ -199,8 +204,23 @@ func backpressureSetup(s *rt.Sim, tier string) func() {
 				}
 				b := mkRawBytes(recvType, uint32(i+10), sz)
 				sentBytes += len(b)
+				if packed {
+					stream = append(stream, b...)
+					continue
+				}
 				if err := peer.sendMsg(id, peerResp, b); err != nil {
 					break
+				}
+			}
+			if packed {
+				rt.Hit("bp.packed-segments")
+				segMax := []int{65535, 65535, 4000, 1500}[rt.Choose("op.x", 4)]
+				for len(stream) > 0 {
+					k := min(segMax, len(stream))
+					if peer.send(id, peerResp, stream[:k]) != nil {
+						break
+					}
+					stream = stream[k:]
 				}
 			}
 			// the consumer resumes; everything must be handled
